@@ -677,6 +677,8 @@ func runC05(r *mon.Run, replay string) {
 	if st, ok := replayStream(replay); ok {
 		if st >= 59000 {
 			runC05Concurrent(r, st)
+		} else if st >= 58800 {
+			runC05MixedMine(r, st)
 		} else if st >= 58500 {
 			runC05Resubmit(r, st)
 		} else if st >= 58000 {
@@ -690,6 +692,8 @@ func runC05(r *mon.Run, replay string) {
 	parallel(r.Pick(24, 300), func(i int) { runC05Concurrent(r, uint64(59000+i)) })
 	parallel(r.Pick(2, 24), func(i int) { runC05PoolFull(r, uint64(58000+i)) })
 	parallel(r.Pick(3, 30), func(i int) { runC05Resubmit(r, uint64(58500+i)) })
+	parallel(r.Pick(12, 120), func(i int) { runC05MixedMine(r, uint64(58800+i)) })
+	r.Floor("blocks_mined_from_mixed_heavy_pool", 10)
 	r.Floor("resubmit_histories_past_the_limit_if_recharged", 1)
 	r.Floor("reorgs_back_onto_validated_branch", 20)
 	r.Floor("prevalidated_extensions_under_pool", 20)
@@ -815,6 +819,109 @@ func runC05Resubmit(r *mon.Run, stream uint64) {
 	r.Distinct(fmt.Sprintf("resubmit/%d/%d", stream, rounds))
 }
 
+// runC05MixedMine: in the window where v1 and v2 transactions may share a
+// block, the pool holds heavy transactions of both kinds - each kind fits a
+// block alone, together they do not. Blocks assembled by MineBlock must stay
+// within the weight limit (valid under the pure oracle) and be adopted.
+func runC05MixedMine(r *mon.Run, stream uint64) {
+	rng := r.RNG(stream)
+	p := chainlab.RandomParams("mix", rng)
+	env := chainlab.NewEnv(p)
+	t := chainlab.NewTree(env, rng)
+	tip := t.Root
+	for tip.Height+1 < p.Allow {
+		tip = t.ExtendEmpty(tip, zeroT)
+	}
+	if tip.Height+3 >= p.Require {
+		return
+	}
+	node, err := chainlab.NewTestNode(env, nil)
+	if err != nil {
+		r.Inconclusive(err.Error())
+		return
+	}
+	cm := node.CM
+	if err := cm.AddBlocks(chainlab.Blocks(tip.PathFromGenesis())); err != nil {
+		r.Inconclusive(err.Error())
+		return
+	}
+	cs := c05Case{Stream: stream, Params: p}
+	b := tip.L.NewBuilder(rng)
+	b.EphFloor = 1 << 30
+	n1, n2 := 0, 0
+	if debugOn {
+		fmt.Println("DEBUG mixed: actors", len(env.Actors), "tip", tip.Height, "allow", p.Allow, "require", p.Require, "sc", len(tip.L.SC))
+	}
+	// the builder orders a block's v1 transactions before its v2 ones, so all
+	// v1 spends are made first
+	for i := 0; i < 3; i++ {
+		for _, a := range env.Actors {
+			before := len(b.Txns)
+			if b.V1Spend(a, 0) && len(b.Txns) > before {
+				txn := chainlab.DeepCopyTxn(b.Txns[len(b.Txns)-1])
+				txn.ArbitraryData = [][]byte{append([]byte("NonSia"), make([]byte, 450_000+rng.IntN(200_000))...)}
+				b.ResignV1(&txn)
+				if _, err := cm.AddPoolTransactions([]types.Transaction{txn}); err == nil {
+					n1++
+				} else if debugOn {
+					fmt.Println("DEBUG mixed v1 rejected:", err)
+				}
+				break
+			}
+		}
+	}
+	for i := 0; i < 3; i++ {
+		for _, a := range env.Actors {
+			before := len(b.V2Txns)
+			if b.V2Spend(a, 0) && len(b.V2Txns) > before {
+				txn := b.V2Txns[len(b.V2Txns)-1].DeepCopy()
+				txn.ArbitraryData = make([]byte, 450_000+rng.IntN(200_000))
+				b.ResignV2(&txn)
+				if _, err := cm.AddV2PoolTransactions(tip.L.State.Index, []types.V2Transaction{txn}); err == nil {
+					n2++
+				} else if debugOn {
+					fmt.Println("DEBUG mixed v2 rejected:", err)
+				}
+				break
+			}
+		}
+	}
+	if n1 < 2 || n2 < 2 {
+		r.Count("mixed_mine_setup_too_light", 1)
+		return
+	}
+	cur := tip
+	for round := 0; round < 6 && cur.Height+2 < p.Require; round++ {
+		pool := snapPool(cm)
+		if len(pool.v1)+len(pool.v2) == 0 {
+			break
+		}
+		var blk types.Block
+		if pn := mon.Guard(func() { blk, _ = coreutils.MineBlock(cm, env.A(chainlab.Miner).Addr, 2*time.Second) }); pn != nil {
+			r.Violation("mineblock-panic", fmt.Sprint("MineBlock panicked: ", pn), cs, nil)
+			return
+		}
+		blk.Timestamp = cur.Block.Timestamp.Add(env.Net.BlockInterval)
+		chainlab.MineNonce(cur.L.State, &blk)
+		n := t.Attach(cur, blk, "", []string{"mined-from-mixed-heavy-pool"})
+		r.Count("blocks_mined_from_mixed_heavy_pool", 1)
+		if len(blk.Transactions) > 0 && len(blk.V2Transactions()) > 0 {
+			r.Count("mined_blocks_holding_both_kinds", 1)
+		}
+		if !n.ChainValid {
+			r.Violation("mined-block-invalid:mixed-pool", fmt.Sprintf("a block assembled by MineBlock from a pool of %d v1 and %d v2 heavy transactions (%d + %d in the block) is invalid under the pure oracle: %s", len(pool.v1), len(pool.v2), len(blk.Transactions), len(blk.V2Transactions()), n.Err), cs, nil)
+			return
+		}
+		if err := cm.AddBlocks([]types.Block{blk}); err != nil || cm.Tip().ID != n.ID {
+			r.Violation("mined-block-not-adopted:mixed-pool", fmt.Sprintf("a block mined from the pool on top of the tip was not adopted: %v", err), cs, nil)
+			return
+		}
+		cur = n
+	}
+	r.Eval()
+	r.Distinct(fmt.Sprintf("mixedmine/%d/%d/%d", stream, n1, n2))
+}
+
 func runC05PoolFull(r *mon.Run, stream uint64) {
 	rng := r.RNG(stream)
 	p := chainlab.RandomParams("v2only", rng)
@@ -841,6 +948,7 @@ func runC05PoolFull(r *mon.Run, stream uint64) {
 	}
 	var subs []sub
 	prev := map[types.TransactionID]bool{}
+	parentOf := map[types.TransactionID]types.TransactionID{}
 	var prevWeight uint64
 	b := tip.L.NewBuilder(rng)
 	b.EphFloor = 1 << 30 // confirmed inputs only: the transactions must be independent
@@ -889,6 +997,33 @@ func runC05PoolFull(r *mon.Run, stream uint64) {
 			continue
 		}
 		subs = append(subs, sub{txn.ID(), txn.MinerFee.Div64(w)})
+		// sometimes a small child of the newcomer follows, paying a little less
+		// per weight unit than its parent: dependent sets must survive evictions
+		// in pool order (parents before children)
+		newcomers := map[types.TransactionID]bool{txn.ID(): true}
+		newW := w
+		if rng.IntN(3) == 0 && len(txn.SiacoinOutputs) > 0 {
+			eo := txn.EphemeralSiacoinOutput(0)
+			child := types.V2Transaction{
+				SiacoinInputs:  []types.V2SiacoinInput{{Parent: eo}},
+				SiacoinOutputs: []types.SiacoinOutput{{Address: eo.SiacoinOutput.Address, Value: eo.SiacoinOutput.Value}},
+			}
+			b.ResignV2(&child)
+			cw := tip.L.State.V2TransactionWeight(child)
+			cfee := txn.MinerFee.Div64(w).Mul64(cw).Mul64(3).Div64(4)
+			if !cfee.IsZero() && eo.SiacoinOutput.Value.Cmp(cfee) > 0 {
+				child.MinerFee = cfee
+				child.SiacoinOutputs[0].Value = eo.SiacoinOutput.Value.Sub(cfee)
+				b.ResignV2(&child)
+				if _, err := cm.AddV2PoolTransactions(tip.L.State.Index, []types.V2Transaction{txn.DeepCopy(), child}); err == nil {
+					subs = append(subs, sub{child.ID(), child.MinerFee.Div64(tip.L.State.V2TransactionWeight(child))})
+					parentOf[child.ID()] = txn.ID()
+					newcomers[child.ID()] = true
+					newW += tip.L.State.V2TransactionWeight(child)
+					r.Count("poolfull_children_paying_less_than_their_parent", 1)
+				}
+			}
+		}
 		pool := snapPool(cm)
 		var total uint64
 		for _, x := range pool.v2 {
@@ -910,8 +1045,13 @@ func runC05PoolFull(r *mon.Run, stream uint64) {
 		gone := 0
 		for i := range subs {
 			s := subs[i]
-			if !prev[s.id] && s.id != txn.ID() {
+			if !prev[s.id] && !newcomers[s.id] {
 				continue // evicted in an earlier step
+			}
+			if par, isChild := parentOf[s.id]; isChild {
+				if _, in := pool.ids[par]; !in {
+					continue // its parent is gone (evicted): the child goes with it
+				}
 			}
 			if _, in := pool.ids[s.id]; in {
 				if minKept == nil || s.rate.Cmp(*minKept) < 0 {
@@ -928,8 +1068,8 @@ func runC05PoolFull(r *mon.Run, stream uint64) {
 		for id := range pool.ids {
 			prev[id] = true
 		}
-		if gone > 0 && prevWeight+w < maxW {
-			r.Violation("eviction-without-full-pool", fmt.Sprintf("%d transactions were evicted although the pool (%d) plus the newcomer (%d) weigh less than ten block weights (%d)", gone, prevWeight, w, maxW), cs, nil)
+		if gone > 0 && prevWeight+newW < maxW {
+			r.Violation("eviction-without-full-pool", fmt.Sprintf("%d transactions were evicted although the pool (%d) plus the newcomer (%d) weigh less than ten block weights (%d)", gone, prevWeight, newW, maxW), cs, nil)
 			return
 		}
 		prevWeight = total
